@@ -140,6 +140,13 @@ static Case gen_probe(const Args &a, uint64_t seed) {
     }
     Case c = gen_case(prof, ps, go);
     for (auto &op : c.ops) op.dyn_snode = false;     // keep probes clear of the listed dynamic-storage finding
+    if (prof == "svx" && !c.ops.empty() && c.ops[0].kind == OP_GSSVX && c.ops[0].x.fact != 2) {
+        // probes that end in an early return: a caller workspace far too small (info = bytes + n: the value itself is part of the result)
+        // or a workspace query (the estimate is part of the result)
+        int k = (int)r.below(100);
+        if (k < 18) { c.ops[0].x.lwork = 8 * (long)r.range(1, 600); c.ops[0].x.work_align = 0; c.tags["probe_tiny_workspace"] = 1; }
+        else if (k < 26) { c.ops[0].x.lwork = -1; c.tags["probe_query"] = 1; }
+    }
     return c;
 }
 
@@ -207,6 +214,8 @@ static Outcome run_carry(const Args &a, uint64_t seed, Zygote &z, Case &probe_ou
     if (split) { ro.between = run_prefix; ro.between_after = 0; } else run_prefix();
     Outcome o = run_case(probe, ro);
     if (split) o.probes["carry_split_probes"]++;
+    if (probe.tags.count("probe_tiny_workspace")) o.probes["carry_failing_probes"]++;
+    if (probe.tags.count("probe_query")) o.probes["carry_query_probes"]++;
     o.probes["carry_prefix_cases"] += np; o.probes["carry_prefix_violations_coobserved"] += pre_viols;
     if (o.sample.t == J::OBJ) o.sample.set("carry_prefix", names);
     ProbeReply f1{0, 0};
